@@ -244,3 +244,5 @@ func genThreshold(r *RNG, n int) (int, int) {
 		return k * 1000000000 / n, 1000000000
 	}
 }
+
+func layoutOf(width int, crlf bool) layout { return layout{width: width, crlf: crlf} }
